@@ -905,7 +905,20 @@ impl<'a> Ctx<'a> {
                     } else {
                         Node::Class(*self.rng.pick(&["\\w", "(?s:.)", "[^a]", "\\S"]))
                     };
-                    let behind = if self.rng.chance(2, 3) { Node::Lit(c) } else { self.fixed_width(0) };
+                    let behind = match self.rng.below(6) {
+                        0 | 1 | 2 => Node::Lit(c),
+                        // a look-around nested in the look-behind's body (zero width, so the body
+                        // stays fixed-width): saved positions of two levels in flight at once
+                        3 => Node::Concat(vec![
+                            Node::Look { child: Box::new(Node::Lit(c)), ahead: true, neg: false },
+                            Node::Lit(c),
+                        ]),
+                        4 => Node::Concat(vec![
+                            Node::Look { child: Box::new(self.atom_simple()), ahead: self.rng.chance(1, 2), neg: self.rng.chance(1, 4) },
+                            Node::Class("(?s:.)"),
+                        ]),
+                        _ => self.fixed_width(0),
+                    };
                     let lb = Node::Look { child: Box::new(behind), ahead: false, neg: self.rng.chance(1, 6) };
                     return Node::Concat(vec![atom, lb]);
                 }
@@ -1006,7 +1019,7 @@ pub fn gen_pattern(rng: &mut Rng, cfg: &GenCfg) -> Node {
 
 // 1-, 2-, 3- and 4-byte characters, among them some whose last byte is 0xBF or 0x80 (the ends of
 // the continuation-byte range)
-const TEXT_ALPHA: &[char] = &['a', 'a', 'a', 'a', 'a', 'b', 'b', 'b', 'c', 'é', 'é', '\n', '-', '1', '日', '😀', 'ÿ', '¿', 'À', '\u{7ff}', '\u{10ffff}'];
+const TEXT_ALPHA: &[char] = &['a', 'a', 'a', 'a', 'a', 'b', 'b', 'b', 'c', 'é', 'é', '\n', '-', '1', '日', '😀', 'ÿ', '¿', 'À', '\u{7ff}', '\u{10ffff}', 'A', 'B', 'É'];
 
 /// Extra text length allowed in the thorough tier (set once, before any job runs).
 static TEXT_BONUS: std::sync::atomic::AtomicUsize = std::sync::atomic::AtomicUsize::new(0);
@@ -1072,6 +1085,11 @@ pub fn text_shrinks(s: &str) -> Vec<String> {
 /// Fixed corpus lifted from the repository's own tests and documentation (plus a few shapes that
 /// exercise every instruction of the VM). Used alongside the generated patterns.
 pub const CORPUS: &[&str] = &[
+    // plain literals (delegated as a whole; where a literal shortcut would sit)
+    "a",
+    "ab",
+    "é",
+    "a-b",
     r"(\w+) \1",
     r"\w+(?=!)",
     r"(a+)b\1",
